@@ -28,6 +28,8 @@ def _valid_rate_case(rng, kind=None, max_size=8, plain_ranks=False, state=None):
     while True:
         c = gen.gen_rate_case(rng, kind=kind, max_size=max_size, state=state)
         teams, ranks, scores, tau, lim = c["args"]
+        if tau[0] == "B":            # the monitors give tau as a number or not at all
+            tau = c["args"][3] = OMIT
         t = eff_tau(c["st"], tau)
         if any(p[3] == 0 for tm in teams[1] for p in tm[1]) and t == 0:
             continue
@@ -141,7 +143,10 @@ def mon_C02(rng, budget, tier):
         st = gen.gen_state(rng)
 
         def mk(k, kind=kind, st=st):
-            c = _valid_rate_case(rng, kind=kind, state=st)
+            while True:     # the thunk passes no per-call tau: the game has to be valid under the model's own tau
+                c = _valid_rate_case(rng, kind=kind, state=st)
+                if st["tau"] > 0 or all(p[3] != 0 for tm in c["args"][0][1] for p in tm[1]):
+                    break
             teams = c["args"][0]
             n = len(teams[1])
             order = list(range(n))
@@ -668,9 +673,20 @@ def mon_C08(rng, budget, tier):
         case = {"op": op, "kind": kind, "st": st, "nums": nums, "order": order}
         mon.case(case)
         mon.count("op:" + op)
+        pc_tau = OMIT
+        if op == "rate" and rng.random() < 0.15:
+            # the variance of a sigma-0 team comes from a PER-CALL tau on a model built with tau = 0
+            st = dict(st, tau=0.0)
+            pc_tau = ("F", rng.choice([beta / 50, beta, 1e-3 * beta]))
+            z = rng.randrange(len(nums))
+            nums = [([(mu, 0.0) for mu, _ in t] if (ti == z or rng.random() < 0.2) else [(mu, sg if sg > 0 else beta) for mu, sg in t]) for ti, t in enumerate(nums)]
+            case = {"op": op, "kind": kind, "st": st, "nums": nums, "order": order, "tau": pc_tau}
+        elif op == "rate":
+            nums = [[(mu, (sg if (sg > 0 or st["tau"] > 0) else 1e-4 * beta)) for mu, sg in t] for t in nums]
+            case["nums"] = nums
         try:
             if op == "rate":
-                out = rate_nums(kind, st, nums, ranks=("L", [("I", r) for r in order]))
+                out = rate_nums(kind, st, nums, ranks=("L", [("I", r) for r in order]), tau=pc_tau)
             else:
                 out = call_predict(op, kind, st, nums)
         except Exception as ex:
@@ -690,6 +706,8 @@ def _predict_game(rng, kind=None, max_teams=8):
     nums = gen.gen_teams_num(rng, st, shape, ints=False)
     if rng.random() < 0.05:
         nums = [[(mu, sg * 1e-3) for mu, sg in t] for t in nums]
+    if rng.random() < 0.06:
+        nums = [([(mu, 0.0) for mu, _ in t] if rng.random() < 0.5 else t) for t in nums]     # teams of zero variance
     return st, nums
 
 
@@ -1013,6 +1031,8 @@ def mon_C12(rng, budget, tier):
         try:
             m.predict_win(objs), m.predict_draw(objs), m.predict_rank(objs)
             step = rng.choice(["assign", "rate", "assign"])
+            if step == "rate" and not alias and not (st["tau"] > 0 or all(sg > 0 for t in nums for _, sg in t)):
+                step = "assign"     # sigma = 0 with tau = 0 is outside rate()'s domain
             if step == "rate" and not alias:
                 m.rate(objs, ranks=[rng.randrange(3) for _ in range(n)])
             else:
@@ -1438,6 +1458,10 @@ def mon_C15(rng, budget, tier):
         c = _valid_rate_case(rng, kind=kind)
         teams, ranks, scores, _, _ = c["args"]
         st = c["st"]
+        if i % 8 == 0:
+            # the equivalence of per-call and model-level options holds for EVERY configuration (C15_tau / C15_limit
+            # assume nothing about the parameters), also ones under which sigma rises: kappa > 1, a negative gamma
+            st = dict(st, kappa=rng.choice([1.5, 4.0, st["kappa"]]), gamma=rng.choice(["gc:" + (-1.0).hex(), "gc:" + (-0.25).hex(), st["gamma"]]))
         nums = [[(mu, sg if sg > 0 else st["beta"]) for mu, sg in t] for t in nums_of(teams)]
         if i % 3 == 0:   # players whose sigma would rise: small sigma, large tau
             nums = [[(mu, gen.logu(rng, 1e-3, 0.3) * st["beta"]) for mu, _ in t] for t in nums]
@@ -1986,6 +2010,9 @@ def mon_C20(rng, budget, tier):
         for p in flat[1:]:
             if rng.random() < 0.6:
                 p.id = flat[0].id          # an earlier stored state of the same player
+                if rng.random() < 0.4:     # ... or an exact clone of it (same numbers too)
+                    p.mu, p.sigma = flat[0].mu, flat[0].sigma
+        nums = [[(p.mu, p.sigma) for p in t] for t in orig]
         rebuilt = [[m.rating(mu, sg) for mu, sg in t] for t in nums]
         order = gen.random_weak_order(rng, n)
         lim = rng.choice([True, True, False])
